@@ -180,6 +180,17 @@ pub fn differential(tree: &Tree, in_scope: &[String], pair: &Pair, out: &mut Vec
             },
         }
     }
+    // nothing but the lock file may appear, and symlinks stay symlinks
+    for rel in pair.after_edit.keys()
+    {
+        if rel != "Breadlog.lock" && !matches!(tree.get(rel), Some(Node::File(_)))
+        {
+            out.push(dev(
+                "unexpected-file-after-edit",
+                format!("{} is a regular file after the edit run but was {} before", rel, if tree.contains_key(rel) { "a symlink / directory" } else { "absent" }),
+            ));
+        }
+    }
     for f in rep_missing.keys()
     {
         if !in_scope.contains(f)
